@@ -379,6 +379,85 @@ def role_correspondence(ctx, built):
         ctx.add_broken("broken-correspondence", "role model vs _validate_getBH_inputs", json.dumps(rows[bi]))
 
 
+# ------------------------------------------------------------------ observer-list formatting correspondence
+def observer_correspondence(ctx, built):
+    """check_format_input_observers on random mixed lists [positions | Sensor | (nested) Collection ...] against the
+    model format_observers: the returned sensors, identified, in order"""
+    from magpylib._src.input_checks import check_format_input_observers
+    rng = ctx.rng
+    rows = []
+    for _ in range(ctx.n(150, 2500)):
+        counter = [1000]
+        items, pyin, ids = [], [], {}
+        for _ in range(rng.randint(1, 5)):
+            x = rng.random()
+            counter[0] += 1
+            if x < 0.35:
+                sobj = magpy.Sensor()
+                ids[id(sobj)] = counter[0]
+                items.append(f"OISensor {counter[0]}")
+                pyin.append(sobj)
+            elif x < 0.65:
+                pos = [float(counter[0]), 0.5, -1.0]          # recognisable pixel value
+                items.append(f"OIPos {counter[0]}")
+                pyin.append(pos if rng.random() < 0.5 else tuple(pos))
+            else:
+                tree = gen_tree(rng)
+
+                def build(t, base=[counter[0] * 100]):
+                    ch, cs = [], []
+                    for e in t:
+                        base[0] += 1
+                        if e == "s":
+                            ch.append(magpy.misc.Dipole(moment=(1, 2, 3)))
+                            cs.append(f"OSrc {base[0]}")
+                        elif e == "q":
+                            o = magpy.Sensor()
+                            ids[id(o)] = base[0]
+                            ch.append(o)
+                            cs.append(f"OSens {base[0]}")
+                        else:
+                            c2, t2 = build(e, base)
+                            ch.append(c2)
+                            cs.append(t2)
+                    base[0] += 1
+                    return magpy.Collection(*ch), f"(OColl {base[0]} {clist(cs)})"
+                cobj, cterm = build(tree)
+                items.append(f"OIColl {cterm}")
+                pyin.append(cobj)
+        try:
+            with warnings.catch_warnings():
+                warnings.simplefilter("ignore")
+                sens, _ = check_format_input_observers(pyin, pixel_agg="mean")
+            out = []
+            for so in sens:
+                if id(so) in ids:
+                    out.append(ids[id(so)])
+                else:
+                    out.append(int(round(float(np.reshape(so.pixel, (-1, 3))[0][0]))))
+            res = "(Some " + clist([cz(x) for x in out]) + ")"
+        except MagpylibBadUserInput:
+            res = "None"
+        ctx.case(("observer-list", clist(items)), True)
+        ctx.bump("observer-list:" + ("ok" if res != "None" else "bad"))
+        rows.append((clist(items), res))
+    ctx.samples.append({"observer_list": rows[0][0], "implementation_order": rows[0][1]})
+    if not built:
+        return
+    txt = CASES_HEADER + "Definition ocases : list (list obs_item * option (list Z)) :=\n" + \
+        clist([f"({i}, {r})" for i, r in rows]).replace("; ([", ";\n ([") + \
+        ".\nEval vm_compute in (failing_ocases ocases).\n"
+    ok, out = ctx.coq_eval(f"c07_observers_{ctx.tier}", txt)
+    res = parse_z_list(out) if ok else None
+    if res is None:
+        ctx.add_broken("broken-correspondence", "c07_observers", "model evaluation failed:\n" + out[-1500:])
+        return
+    ctx.count("traces_validated_against_impl", len(rows) - len(res))
+    for bi in res[:3]:
+        ctx.add_broken("broken-correspondence", "format_observers model vs check_format_input_observers",
+                       json.dumps(rows[bi]))
+
+
 # ------------------------------------------------------------------ tables: AST translation vs the running classes
 def tables_tie(ctx, built):
     """the registered classes and rank tables the translator read from the source text are the ones the interpreter
@@ -610,6 +689,7 @@ def run(ctx):
     run_guarded(ctx, lambda: tables_tie(ctx, built), "C07 tables tie")
     run_guarded(ctx, lambda: dict_correspondence(ctx, built), "C07 dict correspondence")
     run_guarded(ctx, lambda: role_correspondence(ctx, built), "C07 role correspondence")
+    run_guarded(ctx, lambda: observer_correspondence(ctx, built), "C07 observer-list correspondence")
     big = bool(ctx.broken)
     run_guarded(ctx, lambda: search(ctx, big), "C07 search")
 
